@@ -9,7 +9,9 @@ import (
 	"go/constant"
 	"go/token"
 	"go/types"
+	"math"
 	"sort"
+	"strconv"
 	"strings"
 
 	"golang.org/x/tools/go/ssa"
@@ -110,6 +112,7 @@ type Unit struct {
 	qn           int
 	topParams    map[string]Val
 	frameExtra   []specLoc
+	divCache     map[string][2]string
 	recDefs      map[string]*recDef
 	lockState    *State
 	frameSkip    map[string]bool
@@ -1075,7 +1078,15 @@ func (u *Unit) constVal(c *ssa.Const) Val {
 	case isInteger(t):
 		return Val{T: intLit(c.Value), Ty: t}
 	case isFloat(t):
-		return Val{T: realLit(c.Value), Ty: t}
+		// floats are modelled as reals: use the shortest decimal that denotes this float64
+		// (0.001 means 1/1000, not its binary rounding)
+		v := c.Value
+		if f, _ := constant.Float64Val(v); !math.IsInf(f, 0) && !math.IsNaN(f) {
+			if d := constant.MakeFromLiteral(strconv.FormatFloat(f, 'g', -1, 64), token.FLOAT, 0); d.Kind() != constant.Unknown {
+				v = d
+			}
+		}
+		return Val{T: realLit(v), Ty: t}
 	case isString(t):
 		return Val{T: u.em.strLit(constant.StringVal(c.Value)), Ty: t}
 	}
@@ -1597,6 +1608,18 @@ func (u *Unit) convert(st *State, term string, from, to types.Type) string {
 		if rangeSubset(from, to) {
 			return term
 		}
+		if intBits(from) == intBits(to) && isUnsigned(from) != isUnsigned(to) {
+			// reinterpretation between signed and unsigned of the same width
+			w := pow2(intBits(to))
+			if isUnsigned(to) {
+				return fmt.Sprintf("(ite (>= %s 0) %s (+ %s %s))", term, term, term, w)
+			}
+			return fmt.Sprintf("(ite (< %s %s) %s (- %s %s))", term, halfPow(intBits(to)), term, term, w)
+		}
+		if u.nowrap && isUnsigned(to) && intBits(from) <= intBits(to) {
+			// signed -> wider/equal unsigned in a nowrap unit: value must be non-negative (checked by caller obligations)
+			return fmt.Sprintf("(ite (>= %s 0) %s (+ %s %s))", term, term, term, pow2(intBits(to)))
+		}
 		return wrapInt(term, to)
 	case isInteger(from) && isFloat(to):
 		return fmt.Sprintf("(to_real %s)", term)
@@ -1658,14 +1681,24 @@ func (u *Unit) divmod(f *Frame, st *State, a, b string, ty types.Type, wantMod b
 		q, r = fmt.Sprintf("(sdiv %s %s)", a, b), fmt.Sprintf("(smod %s %s)", a, b)
 	}
 	if !strings.Contains(a, "_q") && !strings.Contains(b, "_q") {
-		q = u.em.define("q", "Int", q)
-		r = u.em.define("r", "Int", r)
-		if isUnsigned(ty) {
-			u.assume(st, fmt.Sprintf("(=> (> %s 0) (and (= %s (+ (* %s %s) %s)) (<= 0 %s) (< %s %s) (<= 0 %s)))", b, a, q, b, r, r, r, b, q))
+		key := q
+		if u.divCache == nil {
+			u.divCache = map[string][2]string{}
+		}
+		if c, ok := u.divCache[key]; ok {
+			q, r = c[0], c[1]
 		} else {
-			absb := fmt.Sprintf("(ite (>= %s 0) %s (- %s))", b, b, b)
-			u.assume(st, fmt.Sprintf("(=> (not (= %s 0)) (and (= %s (+ (* %s %s) %s)) (ite (>= %s 0) (and (<= 0 %s) (< %s %s)) (and (< (- %s) %s) (<= %s 0)))))", b, a, q, b, r, a, r, r, absb, absb, r, r))
-			u.assume(st, fmt.Sprintf("(=> (and (>= %s 0) (> %s 0)) (>= %s 0))", a, b, q))
+			q = u.em.define("q", "Int", q)
+			r = u.em.define("r", "Int", r)
+			u.divCache[key] = [2]string{q, r}
+			// instance of the defining axiom (universally valid, hence not guarded by the path condition)
+			if isUnsigned(ty) {
+				u.em.assert(fmt.Sprintf("(=> (and (>= %s 0) (> %s 0)) (and (= %s (+ (* %s %s) %s)) (<= 0 %s) (< %s %s) (<= 0 %s)))", a, b, a, q, b, r, r, r, b, q))
+			} else {
+				absb := fmt.Sprintf("(ite (>= %s 0) %s (- %s))", b, b, b)
+				u.em.assert(fmt.Sprintf("(=> (not (= %s 0)) (and (= %s (+ (* %s %s) %s)) (ite (>= %s 0) (and (<= 0 %s) (< %s %s)) (and (< (- %s) %s) (<= %s 0)))))", b, a, q, b, r, a, r, r, absb, absb, r, r))
+				u.em.assert(fmt.Sprintf("(=> (and (>= %s 0) (> %s 0)) (and (>= %s 0) (<= %s %s)))", a, b, q, q, a))
+			}
 		}
 	}
 	if wantMod {
@@ -1729,7 +1762,15 @@ func (u *Unit) binop(f *Frame, st *State, op token.Token, a, b Val, resTy types.
 		case token.MUL:
 			return fmt.Sprintf("(* %s %s)", a.T, b.T)
 		case token.QUO:
-			return fmt.Sprintf("(/ %s %s)", a.T, b.T)
+			if isRealConst(b.T) {
+				return fmt.Sprintf("(/ %s %s)", a.T, b.T)
+			}
+			// division by a symbolic real: uninterpreted quotient with its defining property
+			u.em.pre("(declare-fun rdiv (Real Real) Real)")
+			if u.con != nil && u.con.RealDiv {
+				u.em.pre("(assert (forall ((x Real) (y Real)) (! (=> (not (= y 0.0)) (= (* (rdiv x y) y) x)) :pattern ((rdiv x y)))))")
+			}
+			return fmt.Sprintf("(rdiv %s %s)", a.T, b.T)
 		}
 	}
 	if !isInteger(ty) {
@@ -1936,4 +1977,16 @@ func (u *Unit) heapSortU(name string, t types.Type) string {
 		return d
 	}
 	return u.em.heapSort(name, t)
+}
+
+func isRealConst(t string) bool {
+	if t == "" {
+		return false
+	}
+	for _, r := range t {
+		if !(r >= '0' && r <= '9' || r == '.' || r == '(' || r == ')' || r == '/' || r == ' ' || r == '-') {
+			return false
+		}
+	}
+	return true
 }
